@@ -9,6 +9,7 @@ from typing import Any, Dict, List, Optional, Tuple
 
 from ..cfg import CFG, ENTRY, EXIT
 from ..core import AnalysisError, FunctionInfo, Project, arg_for, const_value, dotted, is_const, kwarg, norm, param_names, walk_no_nested
+from .. import sym
 from ..util import (assignments, count_negations, derived_names, header_calls, inline_locals, mentions, returns_of,
                     single_assignment_env, stmt_text, strip_casts)
 
@@ -886,13 +887,18 @@ def r5(ctx):
               ctx.construct(init, text="self.factors"), f"self.factors = `{norm(fac) if fac is not None else None}`; expected tuple(dict.fromkeys(factors))")
     # __eq__ on Term compares one key attribute on both sides
     key = None
-    for n in ast.walk(eq.node):
-        if isinstance(n, ast.If) and norm(n.test) == "isinstance(other, Term)":
-            r = [s for s in n.body if isinstance(s, ast.Return)]
-            if r and isinstance(r[0].value, ast.Compare) and isinstance(r[0].value.ops[0], ast.Eq):
-                l, rr = r[0].value.left, r[0].value.comparators[0]
-                if isinstance(l, ast.Attribute) and isinstance(rr, ast.Attribute) and l.attr == rr.attr and dotted(l.value) == "self" and dotted(rr.value) == "other":
-                    key = l.attr
+    try:
+        eq_outs = sym.outcomes(eq.node)
+    except sym.Unmodelled as e:
+        raise AnalysisError(f"C01.R5: Term.__eq__ cannot be summarised: {e}")
+    other = param_names(eq.node)[1]
+    tt = sym.eval_under(eq_outs, {f"isinstance({other}, Term)": True}, kinds=("return",))
+    if len(tt) == 1:
+        b = sym.pm_any([f"self.ANY_k == {other}.ANY_k", f"{other}.ANY_k == self.ANY_k"], tt[0][1])
+        if b is None and isinstance(tt[0][1], ast.Compare) and len(tt[0][1].ops) == 1 and isinstance(tt[0][1].ops[0], ast.Eq):
+            l, rr = tt[0][1].left, tt[0][1].comparators[0]
+            if isinstance(l, ast.Attribute) and isinstance(rr, ast.Attribute) and l.attr == rr.attr and {dotted(l.value), dotted(rr.value)} == {"self", other}:
+                key = l.attr
     ctx.check(key is not None, "C01.R5", "Term == Term compares one identity key", eq.where, ctx.construct(eq, text="Term==Term"),
               "Term.__eq__(Term) must compare a single key attribute of both operands")
     if key:
@@ -910,13 +916,13 @@ def r5(ctx):
                   f"self.{key} = `{t}` flattens the factors into one string: a quoted factor whose name contains the separator (`a:b`) becomes "
                   f"identical to the interaction a:b")
         # the str comparison must use the same structured key
-        sbr = [b for b in ast.walk(eq.node) if isinstance(b, ast.If) and norm(b.test) == "isinstance(other, str)"]
-        if sbr:
-            r_ = [x for x in sbr[0].body if isinstance(x, ast.Return)]
-            ok_s = bool(r_) and isinstance(r_[0].value, ast.Compare) and norm(r_[0].value.left) == f"self.{key}" and "FACTOR_MATCHER" in norm(r_[0].value.comparators[0]) \
-                and norm(r_[0].value.comparators[0]).startswith(("tuple(sorted(", "frozenset("))
+        ss = sym.eval_under(eq_outs, {f"isinstance({other}, Term)": False, f"isinstance({other}, str)": True}, kinds=("return",))
+        if ss:
+            v = ss[0][1]
+            ok_s = len(ss) == 1 and isinstance(v, ast.Compare) and len(v.ops) == 1 and isinstance(v.ops[0], ast.Eq) and norm(v.left) == f"self.{key}" \
+                and "FACTOR_MATCHER" in norm(v.comparators[0]) and norm(v.comparators[0]).startswith(("tuple(sorted(", "frozenset("))
             ctx.check(ok_s, "C01.R5", "Term == str parses the string into factor names and compares the same key", eq.where, ctx.construct(eq, text="Term==str"),
-                      f"str branch returns `{norm(r_[0].value)[:120] if r_ else None}`")
+                      f"str branch returns `{norm(v)[:120]}`")
         # hash derives from the key only
         hret = returns_of(hs.node)
         hexpr = hret[0].value if hret else None
@@ -926,9 +932,13 @@ def r5(ctx):
         ctx.check(used == {key}, "C01.R5", "Term.__hash__ depends only on the identity key", hs.where, ctx.construct(hs, text="hash"),
                   f"hash is computed from {sorted(used)}; equality uses `{key}` — equal terms could hash differently (set semantics break)")
     # __mul__ concatenates factors
-    mr = [r for r in returns_of(mul.node) if isinstance(r.value, ast.Call)]
-    ok = any(norm(r.value) in ("Term([*self.factors, *other.factors])", "Term((*self.factors, *other.factors))",
-                               "Term(self.factors + other.factors)", "Term(itertools.chain(self.factors, other.factors))") for r in mr)
+    mo = param_names(mul.node)[1]
+    try:
+        mm = sym.eval_under(sym.outcomes(mul.node), {f"isinstance({mo}, Term)": True}, kinds=("return",))
+    except sym.Unmodelled:
+        mm = []
+    ok = len(mm) == 1 and sym.pm_any([f"Term([*self.factors, *{mo}.factors])", f"Term((*self.factors, *{mo}.factors))", f"Term(self.factors + {mo}.factors)",
+                                      f"Term(itertools.chain(self.factors, {mo}.factors))", f"Term(factors=[*self.factors, *{mo}.factors])"], mm[0][1]) is not None
     ctx.check(ok, "C01.R5", "Term * Term is the term over the concatenated factors", mul.where, ctx.construct(mul, text="mul"),
               "Term.__mul__ must build Term([*self.factors, *other.factors]) (interaction = union of factors, left first)")
 
@@ -971,6 +981,9 @@ def r6(ctx):
         c, neg = count_negations(gens[0].generators[0].ifs[0])
         if isinstance(c, ast.Compare) and len(c.ops) == 1 and norm(c.left).endswith(".eval_method") and norm(c.comparators[0]).endswith("LITERAL"):
             ok = (isinstance(c.ops[0], (ast.NotEq, ast.IsNot)) and neg % 2 == 0) or (isinstance(c.ops[0], (ast.Eq, ast.Is)) and neg % 2 == 1)
+    # the count itself: len(<collection of the kept factors>) or sum(1 for kept factor)
+    counted = t.startswith("len(") or (sym.pm("sum((1 for VAR_f in self.factors if ANY_c))", r[0].value if r else None) is not None)
+    t = "len(" if counted else t
     ctx.check(ok and t.startswith("len("), "C01.R6", "Term.degree counts exactly the non-literal factors", dg.where, ctx.construct(dg, text="degree"),
               f"degree = `{t}`; numeric scalings must not add to the interaction order")
     # reorder after every store (shared with C19.R4)
@@ -1014,8 +1027,9 @@ def r7(ctx):
     fn = f.node
     handled = set()
     for n in walk_no_nested(fn):
-        if isinstance(n, ast.If) and isinstance(n.test, ast.Call) and dotted(n.test.func) == "isinstance" and norm(n.test.args[0]) == "spec":
-            t = n.test.args[1]
+        # a type is handled when some branch (statement or conditional expression, possibly negated) tests for it
+        if isinstance(n, ast.Call) and dotted(n.func) == "isinstance" and len(n.args) == 2 and norm(n.args[0]) == "spec":
+            t = n.args[1]
             for x in (t.elts if isinstance(t, ast.Tuple) else [t]):
                 handled.add(norm(x))
     spec_alias = P.module("formulaic.formula").assigns.get("FormulaSpec")
@@ -1033,17 +1047,22 @@ def r7(ctx):
         ctx.look()
         ctx.check(m in handled or (m == "Term" and False), "C01.R7", f"spec form `{m}` has an isinstance branch in Formula.from_spec", f.where,
                   ctx.construct(f, text=f"branch {m}"), f"`{m}` is a documented specification form but from_spec has no branch for it")
-    body = [s for s in fn.body]
-    ctx.check(isinstance(body[-1], ast.Raise) and "FormulaInvalidError" in norm(body[-1]), "C01.R7",
-              "an unrecognised specification raises FormulaInvalidError", f.module.line(body[-1]), ctx.construct(f, text="fallthrough"),
-              "the fall-through of from_spec must raise FormulaInvalidError")
+    try:
+        fouts = sym.outcomes(fn)
+    except sym.Unmodelled as e:
+        raise AnalysisError(f"C01.R7: from_spec cannot be summarised: {e}")
+    none_of = [o for o in fouts if o.conds and all((not pol) and "isinstance(" in norm(c) for c, pol in o.conds)]
+    ctx.check(bool(none_of) and all(o.kind == "raise" and "FormulaInvalidError" in norm(o.value) for o in none_of), "C01.R7",
+              "an unrecognised specification raises FormulaInvalidError", f.where, ctx.construct(f, text="fallthrough"),
+              f"the fall-through of from_spec must raise FormulaInvalidError; found {none_of[:2]}")
     # whole strings -> root parser; strings inside list specs -> nested parser
     calls = [c for c in ast.walk(fn) if isinstance(c, ast.Call) and isinstance(c.func, ast.Attribute) and c.func.attr == "get_terms"]
     ctx.floor("C01.R7", len(calls), 2, "get_terms calls in from_spec")
     for c in calls:
         ctx.look()
         recv = norm(c.func.value)
-        inside_list = any(isinstance(p, (ast.ListComp, ast.GeneratorExp)) for p in _ancestors(P, c))
+        # the whole specification string goes to the root parser; a string that is an ELEMENT of a list specification to the nested one
+        inside_list = not (c.args and norm(c.args[0]) == "spec")
         want = "nested_parser" if inside_list else "parser"
         ok = recv.replace("(", "").startswith(want) and mentions(c, ["context"])
         ctx.check(ok, "C01.R7", f"{'term strings in a list spec use the nested (no-intercept) parser' if inside_list else 'a whole-string spec uses the root parser'}",
@@ -1060,21 +1079,45 @@ def r7(ctx):
     # keyword / tuple structure: every nested piece goes through the same from_spec with the container's ordering, parsers and context
     pi = P.method("formulaic.formula.StructuredFormula", "_prepare_item", inherited=False)
     calls_pi = [c for c in ast.walk(pi.node) if isinstance(c, ast.Call) and norm(c.func) == "Formula.from_spec"]
-    ok = len(calls_pi) == 1 and norm(calls_pi[0].args[0]) == "item" and {k.arg: norm(k.value) for k in calls_pi[0].keywords} == {
-        "ordering": "self._ordering", "parser": "self._parser if key == 'root' else self._nested_parser", "nested_parser": "self._nested_parser", "context": "self._context"}
+    ok = False
+    if len(calls_pi) == 1:
+        fs = P.func("formulaic.formula._FormulaMeta.from_spec").node
+        got = {n: arg_for(calls_pi[0], fs, n, bound_self=True) for n in ("spec", "ordering", "parser", "nested_parser", "context")}
+        pr = got["parser"]
+        ok = all(v is not None for v in got.values()) and norm(got["spec"]) == "item" and norm(got["ordering"]) == "self._ordering" \
+            and norm(got["nested_parser"]) == "self._nested_parser" and norm(got["context"]) == "self._context" \
+            and norm(sym.simplify(pr, {"key == 'root'": True})) == "self._parser" and norm(sym.simplify(pr, {"key == 'root'": False})) == "self._nested_parser"
     ctx.check(ok, "C01.R7", "nested pieces of a structured formula are built with the container's ordering, parsers and context", pi.where,
               ctx.construct(pi, text="prepare item"), f"_prepare_item calls `{norm(calls_pi[0])[:160] if calls_pi else None}`")
     si = P.method("formulaic.formula.StructuredFormula", "__init__", inherited=False)
-    t = norm(si.node)
-    ok = "self._ordering = OrderingMethod(_ordering)" in t and "self._parser = _parser or DEFAULT_PARSER" in t and \
-        "self._nested_parser = _nested_parser or _parser or DEFAULT_NESTED_PARSER" in t and "self._context = _context" in t and \
-        t.index("self._context = _context") < t.index("super().__init__(root, **structure)")
+    try:
+        so = [o for o in sym.outcomes(si.node) if o.kind in ("fall", "return")]
+    except sym.Unmodelled:
+        so = []
+    ok = bool(so)
+    for o in so:
+        eff = [norm(e) for e in o.effects]
+        need = ["self._ordering = OrderingMethod(_ordering)", "self._parser = _parser or DEFAULT_PARSER",
+                "self._nested_parser = _nested_parser or _parser or DEFAULT_NESTED_PARSER", "self._context = _context"]
+        sup = [i for i, e in enumerate(eff) if e.startswith("super().__init__(")]
+        ok = ok and bool(sup) and all(n in eff and eff.index(n) < sup[0] for n in need)
     ctx.check(ok, "C01.R7", "the container's ordering/parsers/context are set before its items are prepared", si.where, ctx.construct(si, text="init order"),
               "StructuredFormula.__init__ must set _ordering/_parser/_nested_parser/_context before super().__init__ prepares the items")
     mc = P.func("formulaic.formula._FormulaMeta.__call__")
-    t = norm(mc.node)
-    ok = "if root is MISSING and (not structure): return SimpleFormula([])" in t.replace("\n", " ") and "if structure: return StructuredFormula(root, _parser=_parser, _nested_parser=_nested_parser, _ordering=_ordering, _context=_context, **structure)._simplify()" in t.replace("\n", " ") \
-        and "return cls.from_spec(cast(FormulaSpec, root), ordering=_ordering, parser=_parser, nested_parser=_nested_parser, context=_context)" in t
+    try:
+        co = sym.outcomes(mc.node)
+    except sym.Unmodelled as e:
+        raise AnalysisError(f"C01.R7: Formula.__call__ cannot be summarised: {e}")
+    F = {"cls is Formula": True}
+    e0 = sym.eval_under(co, dict(F, **{"root is MISSING": True, "structure": False}), kinds=("return",))
+    e1 = sym.eval_under(co, dict(F, **{"root is MISSING": False, "structure": True}), kinds=("return",))
+    e1b = sym.eval_under(co, dict(F, **{"root is MISSING": True, "structure": True}), kinds=("return",))
+    e2 = sym.eval_under(co, dict(F, **{"root is MISSING": False, "structure": False}), kinds=("return",))
+    SF_ = "StructuredFormula(root, _parser=_parser, _nested_parser=_nested_parser, _ordering=_ordering, _context=_context, **structure)._simplify()"
+    FS_ = "cls.from_spec(root, ordering=_ordering, parser=_parser, nested_parser=_nested_parser, context=_context)"
+    ok = len(e0) == 1 and sym.pm_any(["SimpleFormula([])", "SimpleFormula(())", "SimpleFormula()"], e0[0][1]) is not None \
+        and len(e1) == 1 and sym.pm(SF_, e1[0][1]) is not None and len(e1b) == 1 and sym.pm(SF_, e1b[0][1]) is not None \
+        and len(e2) == 1 and sym.pm(FS_, e2[0][1]) is not None
     ctx.check(ok, "C01.R7", "Formula(...) dispatches: nothing → empty formula; keywords → structured; otherwise from_spec with all options forwarded", mc.where,
               ctx.construct(mc, text="Formula() dispatch"), "Formula.__call__ dispatch changed")
     # ordering is forwarded to every constructed formula
@@ -1272,32 +1315,28 @@ def r10(ctx):
     U = "formulaic.parser.utils"
     # replace_tokens: a token is passed through unchanged iff (kind given and token.kind is not kind) or token.token != target
     f = P.func(U + ".replace_tokens")
-    loops = [n for n in walk_no_nested(f.node) if isinstance(n, ast.For)]
-    ifs = [n for n in (loops[0].body if loops else []) if isinstance(n, ast.If)]
     ctx.look()
-    if not ifs:
+    try:
+        ro = sym.outcomes(f.node)
+    except sym.Unmodelled as e:
+        raise AnalysisError(f"C01.R10: replace_tokens cannot be summarised: {e}")
+    lps = {id(l._sym_orig): l for o in ro for l in o.loops}
+    if len(lps) != 1:
         raise AnalysisError("C01.R10: replace_tokens loop/branch not found")
-    br = ifs[0]
-
-    def atom_r(e):
-        t = norm(e)
-        return {"kind": (0, True), "kind is not None": (0, True), "token.kind is not kind": (1, True), "token.kind is kind": (1, False),
-                "token.kind != kind": (1, True), "token.kind == kind": (1, False),
-                "token.token != token_to_replace": (2, True), "token.token == token_to_replace": (2, False)}.get(t)
-    tt = truth_table(br.test, atom_r, 3)
-    import itertools
-    want_pass = tuple((k and nk) or ne for k, nk, ne in itertools.product([False, True], repeat=3))
-    passes_token = len(br.body) == 1 and norm(br.body[0]) == "yield token"
-    repl = norm(ast.Module(body=br.orelse, type_ignores=[]))
-    ok_rep = "yield replacement" in repl and "yield from replacement" in repl and "isinstance(replacement, Token)" in repl
-    if isinstance(tt, tuple) and not passes_token:
-        # branch written the other way round
-        want_pass = tuple(not x for x in want_pass)
-        passes_token = len(br.orelse) == 1 and norm(br.orelse[0]) == "yield token"
-    ctx.check(isinstance(tt, tuple) and tt == want_pass and passes_token and ok_rep, "C01.R10",
-              "replace_tokens replaces exactly the tokens with the given text (and kind, when a kind is given)", f.module.line(br), ctx.construct(f, text="replace condition"),
-              f"condition `{norm(br.test)}` {'has unmodelled atom ' + tt if isinstance(tt, str) else 'is not (kind ∧ kind-differs) ∨ text-differs'}; "
-              f"pass-through={passes_token}, replacement branch ok={ok_rep}")
+    lp0 = next(iter(lps.values()))
+    tok = norm(lp0._sym_orig.target)
+    pr = param_names(f.node)
+    K, S, T, I = pr[3], f"{tok}.kind is {pr[3]}", f"{tok}.token == {pr[1]}", f"isinstance({pr[2]}, Token)"
+    cases = sym.truth_cases([o for o in ro if o.loops], [K, S, T, I], kinds=("yield", "yield_from"))
+    bad = []
+    for (k, s_, t_, i_), got in cases.items():
+        want = [("yield", tok)] if ((k and not s_) or not t_) else ([("yield", pr[2])] if i_ else [("yield_from", pr[2])])
+        if got != want:
+            bad.append(f"kind given={k}, same kind={s_}, same text={t_}, single replacement={i_}: yields {got}, expected {want}")
+    ctx.check(norm(lp0._sym_head) == pr[0] and not bad, "C01.R10",
+              "replace_tokens replaces exactly the tokens with the given text (and kind, when a kind is given)", f.module.line(lp0._sym_orig),
+              ctx.construct(f, text="replace condition"),
+              f"a token must pass through unchanged iff (kind given ∧ kind differs) ∨ text differs, and be replaced otherwise; {bad[:3]}")
     # insert_tokens_after: where tokens are inserted and when the join operator is added
     g = P.func(U + ".insert_tokens_after")
     t = norm(g.node)
@@ -1356,9 +1395,14 @@ def r10(ctx):
     # the three rewriters are generators over ALL tokens: no early exit that would skip the splitting / merging work
     for q in (".replace_tokens", ".insert_tokens_after", ".merge_operator_tokens"):
         g_ = P.func(U + q)
-        early = [x for x in walk_no_nested(g_.node) if isinstance(x, ast.Return)]
+        try:
+            go_ = sym.outcomes(g_.node)
+        except sym.Unmodelled as e:
+            raise AnalysisError(f"C01.R10: {q[1:]} cannot be summarised: {e}")
+        # a `return` is an early exit unless it is reached after the token loop has run to completion
+        early = [o for o in go_ if o.kind == "return" and (o.loops or not any(isinstance(e, ast.For) for e in o.effects))]
         ctx.check(not early, "C01.R10", f"{q[1:]} has no early exit", g_.where, ctx.construct(g_, text="early exit"),
-                  f"`{stmt_text(early[0]) if early else ''}` leaves the token stream untouched on some inputs (e.g. merged operator tokens such as `~-` are "
+                  f"`{stmt_text(early[0].stmt) if early and early[0].stmt is not None else ''}` leaves the token stream untouched on some inputs (e.g. merged operator tokens such as `~-` are "
                   f"then never split, so the top-level `~` is not found)")
     # Token.split keeps the text in order
     sp = P.method("formulaic.parser.types.token.Token", "split")
